@@ -116,7 +116,18 @@ func New(maxConcurrent int, chQqueueSize int, v ...interface{}) *TaskPool {
 					tp.caller(f)
 				}
 			case <-tp.chClose:
-				return
+				// run what was queued before the stop: no worker
+				// may be left to take it.
+				for {
+					select {
+					case f := <-tp.chQqueue:
+						if f != nil {
+							tp.caller(f)
+						}
+					default:
+						return
+					}
+				}
 			}
 		}
 	}()
